@@ -175,6 +175,13 @@ def run_case(case, ctx):
             check_grid(ctx, D, pl, start, stop, num, "hom_deg=0")
             ctx.outcome(np.round(values_of(pl), 9).tolist())
             if num in (3, 7):
+                # an infinite bar (every H0 diagram of a filtration has one) is removed before anything else:
+                # same grid defaults, same values as for the finite bars alone
+                for pos in sorted({0, len(A) // 2, len(A)}):
+                    Ainf = np.insert(A, pos, [0.5 * (lo + hi), np.inf], axis=0)
+                    pli = quiet(ctx, PersLandscapeApprox, dgms=[Ainf], hom_deg=0, num_steps=num, **kw)
+                    check_grid(ctx, D, pli, start, stop, num, "infinite bar inserted at row %d" % pos, sig="approx-inf-bar")
+                ctx.nontriv("diagram_with_infinite_bar")
                 pl1 = quiet(ctx, PersLandscapeApprox, dgms=[decoy, A], hom_deg=1, num_steps=num, **kw)
                 check_grid(ctx, D, pl1, start, stop, num, "hom_deg=1 of [decoy, D]")
                 pl2 = quiet(ctx, PersLandscapeApprox, dgms=[np.zeros((0, 2)), decoy, A], hom_deg=2, num_steps=num, **kw)
